@@ -131,8 +131,9 @@ async fn transport_differential(cx: &mut Ctx<'_>, sys: &RealSys) {
             cx.rep.count("real_http_cluster_views_compared", 1);
             let a = serde_json::to_value(&direct).unwrap_or(Value::Null);
             let b = serde_json::to_value(&via_http).unwrap_or(Value::Null);
-            if a != b {
-                cx.violation(sys, "http-cluster-view-differs", "the cluster the coordinator decodes from GET /clusters/meta differs from the broker's view".to_string(), json!({"broker": a, "over_http": b}));
+            // Debug output as well: a field the serializer leaves out would make both JSON values equal
+            if a != b || format!("{:?}", direct) != format!("{:?}", via_http) {
+                cx.violation(sys, "http-cluster-view-differs", "the cluster the coordinator decodes from GET /clusters/meta differs from the broker's view".to_string(), json!({"broker": a, "over_http": b, "broker_debug": format!("{:?}", direct), "over_http_debug": format!("{:?}", via_http)}));
             }
         }
         Err(e) => cx.violation(sys, "http-cluster-view-unreadable", format!("the coordinator's HTTP client cannot decode GET /clusters/meta: {}", e), json!({})),
@@ -142,8 +143,8 @@ async fn transport_differential(cx: &mut Ctx<'_>, sys: &RealSys) {
         match sys.http_proxy(&a).await {
             Ok(via_http) => {
                 cx.rep.count("real_http_proxy_views_compared", 1);
-                if serde_json::to_value(&direct).unwrap_or(Value::Null) != serde_json::to_value(&via_http).unwrap_or(Value::Null) {
-                    cx.violation(sys, "http-proxy-view-differs", format!("the proxy view the coordinator decodes from GET /proxies/meta/{} differs from the broker's view", a), json!({"broker": serde_json::to_value(&direct).unwrap_or(Value::Null), "over_http": serde_json::to_value(&via_http).unwrap_or(Value::Null)}));
+                if serde_json::to_value(&direct).unwrap_or(Value::Null) != serde_json::to_value(&via_http).unwrap_or(Value::Null) || format!("{:?}", direct) != format!("{:?}", via_http) {
+                    cx.violation(sys, "http-proxy-view-differs", format!("the proxy view the coordinator decodes from GET /proxies/meta/{} differs from the broker's view", a), json!({"broker_debug": format!("{:?}", direct), "over_http_debug": format!("{:?}", via_http)}));
                 }
             }
             Err(e) => cx.violation(sys, "http-proxy-view-unreadable", format!("the coordinator's HTTP client cannot decode GET /proxies/meta/{}: {}", a, e), json!({})),
@@ -613,6 +614,61 @@ pub async fn run_c03_one(rep: &mut Report, sub_seed: u64, table: Arc<Vec<Vec<u8>
     }
 }
 
+
+// ---------------------------------------------------------------------------------------------
+// C07: the coordinator's retrievers see every registered proxy and every cluster exactly once,
+// also when the lists span several pages of the HTTP API (page size 100).
+
+pub async fn run_pagination_one(rep: &mut Report, sub_seed: u64) {
+    use futures::StreamExt;
+    use undermoon::coordinator::broker::MetaDataBroker;
+    use undermoon::coordinator::verif::core::ProxiesRetriever;
+    use undermoon::coordinator::verif::detector::{BrokerOrderedProxiesRetriever, BrokerProxiesRetriever};
+    let mut rng = Rng::new(sub_seed);
+    let cfg = BrokerCfg { migration_limit: 0, failure_ttl: 600, failure_quorum: 1, ordered: false };
+    let sys = match RealSys::start(&mut rng, &cfg, ProxyOpts::default()).await {
+        Ok(s) => s,
+        Err(_) => return rep.count("real_runs_skipped_start_failed", 1),
+    };
+    let mut cx = Ctx { rep, prop: "C07", sub_seed };
+    let total = *rng.pick(&[99usize, 100, 101, 150, 199, 200, 201, 230]);
+    let n_clusters = *rng.pick(&[0usize, 1, 3, 99, 100, 101, 105]);
+    // registrations directly at the service (no listeners: nothing is sent to these proxies)
+    for i in 0..total.max(n_clusters * 2) {
+        let host = format!("10.9.{}.{}", (i % 2) + 1, i / 2 % 250 + 1);
+        let addr = format!("{}:{}", host, 7000 + i / 500);
+        let payload = json!({"proxy_address": addr, "nodes": [format!("{}:{}", host, 6000 + (i / 500) * 2), format!("{}:{}", host, 6001 + (i / 500) * 2)], "host": host, "index": null});
+        if let Ok(pl) = serde_json::from_value(payload) {
+            let _ = sys.svc.add_proxy(pl).await;
+        }
+    }
+    for c in 0..n_clusters {
+        let _ = sys.svc.add_cluster(format!("pg{}", c), 4).await;
+    }
+    let want_proxies: BTreeSet<String> = sys.svc.get_proxy_addresses(None, None).await.unwrap_or_default().into_iter().collect();
+    let want_clusters: BTreeSet<String> = sys.svc.get_cluster_names(None, None).await.unwrap_or_default().into_iter().map(|n| n.to_string()).collect();
+    let judge = |cx: &mut Ctx<'_>, what: &str, got: Vec<String>, want: &BTreeSet<String>| {
+        cx.rep.evaluations += 1;
+        cx.rep.count("real_paged_listings_compared", 1);
+        cx.rep.distinct(format!("paged|{}|{}", what, want.len()).as_bytes());
+        let got_set: BTreeSet<String> = got.iter().cloned().collect();
+        if got.len() != got_set.len() || &got_set != want {
+            let missing: Vec<&String> = want.difference(&got_set).take(5).collect();
+            let extra: Vec<&String> = got_set.difference(want).take(5).collect();
+            cx.violation(&sys, "retriever-does-not-list-every-item-once", format!("{}: the broker holds {} items, the coordinator's HTTP client listed {} ({} distinct); missing e.g. {:?}, unexpected e.g. {:?}", what, want.len(), got.len(), got_set.len(), missing, extra), json!({"registered": want.len()}));
+        }
+    };
+    let got: Vec<String> = sys.data_broker.get_proxy_addresses().filter_map(|r| async move { r.ok() }).collect().await;
+    judge(&mut cx, "get_proxy_addresses", got, &want_proxies);
+    let got: Vec<String> = sys.data_broker.get_cluster_names().filter_map(|r| async move { r.ok().map(|n| n.to_string()) }).collect().await;
+    judge(&mut cx, "get_cluster_names", got, &want_clusters);
+    let got: Vec<String> = BrokerProxiesRetriever::new(sys.data_broker.clone()).retrieve_proxies().filter_map(|r| async move { r.ok() }).collect().await;
+    judge(&mut cx, "BrokerProxiesRetriever", got, &want_proxies);
+    // the ordered retriever lists free proxies before cluster members; every non-failed proxy exactly once
+    let got: Vec<String> = BrokerOrderedProxiesRetriever::new(sys.data_broker.clone()).retrieve_proxies().filter_map(|r| async move { r.ok() }).collect().await;
+    judge(&mut cx, "BrokerOrderedProxiesRetriever", got, &want_proxies);
+}
+
 /// `n` scenarios on `threads` OS threads, each scenario on its own multi-thread runtime (dropped
 /// afterwards, which ends the HTTP server and the listeners of that scenario).
 pub fn run(rep: &mut Report, prop: &'static str, n: u64, threads: usize) {
@@ -642,6 +698,8 @@ pub fn run(rep: &mut Report, prop: &'static str, n: u64, threads: usize) {
                 let r = rt.block_on(async {
                     if prop == "C03" {
                         tokio::time::timeout(Duration::from_secs(240), run_c03_one(&mut local, sub, table.clone())).await
+                    } else if prop == "C07" && i % 4 == 3 {
+                        tokio::time::timeout(Duration::from_secs(240), run_pagination_one(&mut local, sub)).await
                     } else {
                         tokio::time::timeout(Duration::from_secs(240), run_one(&mut local, prop, sub, table.clone())).await
                     }
